@@ -33,6 +33,9 @@ CONSTANTS
     CloseShortcut,  \* TRUE = Close skips the wait when the highest seq is acked (as coded at the pinned commit)
     MaxConflicts,   \* resume answered with ResumeRequestConflict at most this many times
     CancelIsTimeout,\* TRUE = a sender waiting for its ack when the run is cancelled may report an ack timeout and remove the chunk (as coded at the pinned commit)
+    FlushAbandon,   \* TRUE: a Flush caller may give up (its context ends) before or after it handed its request to the flush loop
+    FlushResBuffered, \* FALSE = the explicit-flush result channel is unbuffered (as coded: an abandoned result is dropped); TRUE = it has room
+                    \*         for one result (a variant: the result of an abandoned Flush stays there and is read by the next caller)
     NetLoss,        \* TRUE: a chunk may be written successfully into a link that dies before the broker gets it (lost in flight)
     RecordScript    \* TRUE: keep the environment projection in `script` (FALSE for liveness checking: no VIEW there)
 
@@ -45,6 +48,9 @@ Emp == [d \in DataIds |-> <<>>]
 Init0 ==
   [ nw |-> 0, wst |-> [w \in Writers |-> "idle"], woffer |-> [w \in Writers |-> [id |-> "", toks |-> <<>>, sz |-> 0]],
     fst |-> [f \in Flushers |-> "idle"],
+    facc |-> [f \in Flushers |-> 0],   \* points accepted when the flusher called Flush (what its nil return vouches for)
+    floop |-> "none",                  \* flusher whose request the flush loop has taken but not yet served (only in the stale-result variant)
+    fres |-> 0,                        \* results sitting in the explicit-flush result channel
     acc |-> Emp, buf |-> Emp, bufSize |-> 0, bufCnt |-> 0, bufIds |-> {}, fl |-> "idle", seq |-> 0, total |-> 0,
     chunks |-> <<>>,      \* history: seq -> [g : [DataIds -> Seq(token)], ids: ids present, enc : ids sent as alias]
     stored |-> {},        \* seqs in the sent storage
@@ -73,6 +79,7 @@ IsFlush(sz) == CASE Policy = "size" -> sz > Threshold
 
 Running(x) == x.runst = "running" /\ ~x.closed
 BufEmpty(x) == x.bufIds = {}
+AccCount(x) == FoldSet(LAMBDA d, a : a + Len(x.acc[d]), 0, DataIds)
 
 \* flush(): atomic under the stream lock; returns the new state. `g` = generation of the spawned sender.
 Cut(x) ==
@@ -113,13 +120,32 @@ Tick == /\ Policy = "interval" /\ Running(s) /\ s.fl = "idle" /\ ~BufEmpty(s)
 \* ---------------------------------------------------------------- API: Flush
 FlushCall(f) ==
     /\ s.fst[f] = "idle" /\ ~s.closed /\ s.cst = "idle"
-    /\ s' = [s EXCEPT !.fst[f] = "offer"]
+    /\ s' = [s EXCEPT !.fst[f] = "offer", !.facc[f] = AccCount(s)]
     /\ Say([a |-> "flush", g |-> f])
 
 \* the flush loop serves the request and hands the result back (unbuffered rendezvous)
 FlushServe(f) ==
-    /\ Running(s) /\ s.fl = "idle" /\ s.fst[f] = "offer"
+    /\ Running(s) /\ s.fl = "idle" /\ s.fst[f] = "offer" /\ s.floop = "none" /\ s.fres = 0
     /\ s' = [Cut(s) EXCEPT !.fst[f] = "done"]
+    /\ Quiet
+\* the caller's context ends before the flush loop took its request: nothing happens
+FlushGiveUpEarly(f) ==
+    /\ FlushAbandon /\ s.fst[f] = "offer"
+    /\ s' = [s EXCEPT !.fst[f] = "gone"]
+    /\ Quiet
+\* ... or after: the loop cuts, finds the caller gone (select on the caller's done channel) and drops the result - or parks it in a buffered channel
+FlushServeAbandoned(f) ==
+    /\ FlushAbandon /\ Running(s) /\ s.fl = "idle" /\ s.fst[f] = "offer" /\ s.floop = "none"
+    /\ s' = [Cut(s) EXCEPT !.fst[f] = "gone", !.fres = IF FlushResBuffered THEN 1 ELSE @]
+    /\ Quiet
+\* (variant) a later caller hands its request over and reads the parked result of an EARLIER flush before the loop has served its own
+FlushStale(f) ==
+    /\ FlushResBuffered /\ s.fres = 1 /\ Running(s) /\ s.fl = "idle" /\ s.fst[f] = "offer" /\ s.floop = "none"
+    /\ s' = [s EXCEPT !.fst[f] = "done", !.floop = f, !.fres = 0]
+    /\ Quiet
+FlushLateCut ==
+    /\ s.floop # "none" /\ Running(s) /\ s.fl = "idle"
+    /\ s' = [Cut(s) EXCEPT !.floop = "none", !.fres = 1]
     /\ Quiet
 
 \* ---------------------------------------------------------------- chunk senders
@@ -309,7 +335,8 @@ Next ==
     \/ (ZeroPointWrites /\ \E w \in Writers, id \in DataIds : WriteCall(w, id, 0, 0))
     \/ \E w \in Writers : Absorb(w)
     \/ CutNeeded \/ Tick
-    \/ \E f \in Flushers : FlushCall(f) \/ FlushServe(f)
+    \/ \E f \in Flushers : FlushCall(f) \/ FlushServe(f) \/ FlushGiveUpEarly(f) \/ FlushServeAbandoned(f) \/ FlushStale(f)
+    \/ FlushLateCut
     \/ \E c \in s.toSend : SendChunk(c) \/ SendChunkLost(c)
     \/ \E S \in SUBSET RecvdOn(s, s.conn), desc \in BOOLEAN, grant \in SUBSET (FullIdsSeen(s) \ s.bGrant) :
           (Cardinality(S) <= 1 => ~desc) /\ BAck(S, desc, grant)
@@ -323,7 +350,7 @@ Spec == Init /\ [][Next]_vars
 
 \* ---- liveness (C02): fairness of every library step, of the redial and of a broker that answers the resume and acknowledges
 SysStep == \/ \E w \in Writers : Absorb(w)
-           \/ CutNeeded \/ (\E f \in Flushers : FlushServe(f)) \/ (\E c \in s.toSend : SendChunk(c))
+           \/ CutNeeded \/ (\E f \in Flushers : FlushServe(f)) \/ FlushLateCut \/ (\E c \in s.toSend : SendChunk(c))
            \/ RouteAck \/ ProcAlias \/ ProcResult \/ (\E c \in s.gotRes : WaiterDone(c))
            \/ CloseFlushServe \/ CloseCheck \/ CloseWait \/ CloseSend \/ CloseResp \/ FinalFlush
            \/ Detect \/ WatcherFire \/ ResumeCut \/ TakeSnapshot \/ (\E q \in s.resendQ : ResendNext(q))
@@ -345,7 +372,6 @@ Flat(x, d) == \* concatenation over all chunks, in seq order, of the tokens of d
     IN F(Len(x.chunks)) \o x.buf[d]
 PendingOffer(x, d) == { w \in Writers : x.wst[w] = "offer" /\ x.woffer[w].id = d }
 
-AccCount(x) == FoldSet(LAMBDA d, a : a + Len(x.acc[d]), 0, DataIds)
 
 \* C01/C20: nothing lost, duplicated or re-attributed between acceptance and cut; per-id order kept
 Conservation == \A d \in DataIds : Flat(s, d) = s.acc[d]
@@ -377,6 +403,8 @@ SnapshotConservation == s.total + s.bufCnt <= s.nw
 SizePolicyBound == (Policy = "size" /\ s.fl = "idle") => s.bufSize <= Threshold
 \* C20: with the 'none' policy nothing is cut before an explicit Flush or Close was called
 NoneCutsOnlyOnDemand == (Policy = "none" /\ s.seq > 0) => (s.cst # "idle" \/ \E f \in Flushers : s.fst[f] # "idle")
+\* C20: Flush is a barrier - a Flush that returned nil vouches for every point accepted before the call
+FlushBarrier == \A f \in Flushers : s.fst[f] = "done" => s.total >= s.facc[f]
 \* C20: with the immediate policy the buffer is empty whenever the flush loop is back in its select
 ImmediateCutsEveryWrite == (Policy = "immediate" /\ s.fl = "idle" /\ Running(s)) => BufEmpty(s)
 
